@@ -7,7 +7,7 @@ from .common import kv, cases, viol
 def gen_exec(r, tier):
     ops = []
     for _ in range(1 if tier == "quick" else 8):
-        ops += streams_exec.gen_exec(r, 45)
+        ops += streams_exec.gen_exec(r, 52)
     return ops
 
 
